@@ -115,6 +115,7 @@ func (x *notExec) do(g string, op NOp) {
 		ctl.Gate("drv.call")
 		r.Add(rec.Ev{"ev": "cancel", "g": g, "ctx": op.Ctx})
 		x.cancels[op.Ctx]()
+		r.Add(rec.Ev{"ev": "cancelled", "g": g, "ctx": op.Ctx})
 	}
 }
 
